@@ -345,7 +345,8 @@ def check_effect(ctx):
     n = 0
     for name, ytxt, val in effect_cases():
         n += 1
-        fm = f"---\nmyst:\n  {name}: {ytxt}\n---\n\n"
+        # (the closing fence of a front-matter block may be longer than three dashes and may carry trailing blanks)
+        fm = f"---\nmyst:\n  {name}: {ytxt}\n{['---', '----', '---  ', '------'][n % 4]}\n\n"
         pad = "\n" * (fm.count("\n"))         # same line numbers in both documents
         try:
             d1, w1 = docutils_doctree(fm + body, dict(base))
